@@ -66,10 +66,16 @@ def _worker(args):
             stats=sx.Stats().as_dict(),
             violations=[],
             validated=0,
-            errors=[f"{type(e).__name__}: {e} @ {sx.jsonable(cfg)}\n{traceback.format_exc()[-1500:]}"],
+            errors=[f"{type(e).__name__}: {str(e)[:300]} @ {sx.jsonable(cfg)} :: {_where()}"],
             wall=time.time() - t0,
             cfg=sx.jsonable(cfg),
         )
+
+
+def _where():
+    """innermost frames of the active exception, one line"""
+    tb = traceback.extract_tb(sys.exc_info()[2])
+    return " <- ".join(f"{os.path.basename(f.filename)}:{f.lineno}:{f.name}" for f in reversed(tb[-4:]))
 
 
 def pmap(modname, fname, cfgs, procs=None, chunksize=1):
@@ -172,8 +178,10 @@ def finish(rep):
         out_viol.append(dict(kind="violation", signature=v["signature"], label=v["label"], inputs=v["inputs"], observed=v["observed"], replay=path))
         code = 1
     if rep.errors:
-        for e in rep.errors[:10]:
-            print("ENGINE-ERROR:", e, file=sys.stderr)
+        for e in rep.errors[:4]:
+            print("ENGINE-ERROR:", str(e)[:700], file=sys.stderr)
+        if len(rep.errors) > 4:
+            print(f"ENGINE-ERROR: ... and {len(rep.errors) - 4} more", file=sys.stderr)
         if code == 0:
             code = 3
     st = rep.stats
